@@ -793,3 +793,278 @@ Proof.
   - intros k tag li N. pose proof (subst_features_nth m s fl 0 fl' H k) as Hk. rewrite N in Hk.
     destruct Hk as [alt [A N']]. exists alt. rewrite Z.add_0_l in A. split; [exact A|exact N'].
 Qed.
+
+(* ================================================================== totality: substitution never panics *)
+(* a scope over a byte string shorter than 2^32 (an OpenType table) *)
+Definition scope_ok (s : scope) : Prop := bytes_ok (data s) = true /\ dlen s < 4294967296.
+Definition ctxt_ok (c : ctxt) : Prop := scope_ok (sc c) /\ 0 <= off c <= dlen (sc c).
+
+Lemma scope_ok_sinv s : scope_ok s -> sinv s.
+Proof. unfold scope_ok, sinv, USIZE. intros [_ H]; lia. Qed.
+
+Lemma ctxt_ok_cinv c : ctxt_ok c -> cinv c.
+Proof. intros [Hs Ho]. split; [exact Ho|apply scope_ok_sinv; exact Hs]. Qed.
+
+Lemma scope_ok_new d : table_ok d -> scope_ok (scope_new d).
+Proof. intros [Hb Hl]. split; [exact Hb|exact Hl]. Qed.
+
+Lemma scope_offset_ok m s o s' : scope_ok s -> scope_offset m s o = Ok s' -> scope_ok s'.
+Proof.
+  intros [Hb Hl] H. split.
+  - unfold scope_offset in H. apply bind_ok in H. destruct H as [b [_ H]]. injection H as <-. cbn [data].
+    apply bytes_ok_slice_from; exact Hb.
+  - pose proof (scope_offset_dlen m s o s' H). lia.
+Qed.
+
+Lemma ctxt_ok_new s : scope_ok s -> ctxt_ok (ctxt_new s).
+Proof. intros H. split; [exact H|]. cbn [ctxt_new off sc]. pose proof (dlen_nonneg s). lia. Qed.
+
+Lemma be_val_nonneg_ok l : bytes_ok l = true -> 0 <= be_val l.
+Proof.
+  unfold be_val. assert (G : forall acc, 0 <= acc -> bytes_ok l = true -> 0 <= fold_left (fun a b => a * 256 + b) l acc).
+  { induction l as [|b l IH]; intros acc Ha Hb; cbn [fold_left]; [exact Ha|].
+    unfold bytes_ok in Hb. cbn [forallb] in Hb. apply andb_true_iff in Hb. destruct Hb as [Hb0 Hb].
+    unfold byte_ok in Hb0. apply IH; [lia|exact Hb]. }
+  apply G. lia.
+Qed.
+
+(* a successful unsigned read: non-negative value, the cursor stays in the same scope *)
+Lemma read_prim_ok_props p c v c' : prim_signed p = false -> ctxt_ok c -> read_prim p c = Ok (v, c') ->
+  0 <= v /\ ctxt_ok c'.
+Proof.
+  intros Hu Hc H. pose proof Hc as [[Hb Hl] Ho].
+  destruct (read_prim_exact p c Hb (ctxt_ok_cinv c Hc)) as [[Hle E]|[_ E]]; rewrite E in H; [|discriminate].
+  injection H as <- <-. split.
+  - unfold decode_prim. rewrite Hu. apply be_val_nonneg_ok. apply bytes_ok_take. apply bytes_ok_drop. exact Hb.
+  - split; cbn [sc off]; [split; assumption|].
+    assert (0 <= spec_size p) by (destruct p; cbv; discriminate). lia.
+Qed.
+
+Lemma read_prim_ok_ctxt p c v c' : ctxt_ok c -> read_prim p c = Ok (v, c') -> ctxt_ok c'.
+Proof.
+  intros Hc H. pose proof Hc as [[Hb Hl] Ho].
+  destruct (read_prim_exact p c Hb (ctxt_ok_cinv c Hc)) as [[Hle E]|[_ E]]; rewrite E in H; [|discriminate].
+  injection H as <- <-. split; cbn [sc off]; [split; assumption|].
+  assert (0 <= spec_size p) by (destruct p; cbv; discriminate). lia.
+Qed.
+
+Lemma iter_next_total m s st t idx :
+  0 <= idx -> 0 <= st -> idx * st < USIZE -> ty_size t <= st -> exists r, iter_next m s st t idx = Ok r.
+Proof.
+  intros Hi Hst Hm Ht. unfold iter_next, umul. replace (idx * st <? USIZE) with true by lia. cbn [bind].
+  unfold scope_offset, wadd. cbn [bind].
+  set (s' := {| base := (base s + idx * st) mod USIZE; data := slice_from (data s) (idx * st) |}).
+  destruct (check_avail (ctxt_new s') st) eqn:E; [|eauto].
+  apply check_avail_true in E; cbn [ctxt_new off sc]; try lia. cbn [ctxt_new off sc] in E.
+  destruct (read_unchecked_ty_ok t (ctxt_new s')) as [vs Hvs]; cbn [ctxt_new off sc]; try lia.
+  pose proof (ty_size_nonneg t). rewrite Hvs. cbn [bind]. eauto.
+Qed.
+
+Lemma iter_collect_total m s st t : 0 <= st -> ty_size t <= st -> forall fuel idx,
+  0 <= idx -> (idx + Z.of_nat fuel) * st < USIZE -> exists v, iter_collect fuel m s st t idx = Ok v.
+Proof.
+  intros Hst Ht. induction fuel as [|f IH]; intros idx Hi Hm; cbn [iter_collect]; [eauto|].
+  destruct (iter_next_total m s st t idx Hi Hst ltac:(nia) Ht) as [r ->]. cbn [bind].
+  destruct r as [v|]; [|eauto].
+  destruct (IH (idx + 1) ltac:(lia) ltac:(nia)) as [vs ->]. cbn [bind]. eauto.
+Qed.
+
+Lemma arr_to_vec_total m a :
+  dlen (a_sc a) < 4294967296 -> 0 <= a_stride a <= 8 -> ty_size (a_ty a) <= a_stride a ->
+  exists v, arr_to_vec m a = Ok v.
+Proof.
+  intros Hl Hs Ht. unfold arr_to_vec. apply iter_collect_total; try lia.
+  unfold dlen, len, USIZE in *. nia.
+Qed.
+
+(* a bounds-checked array of a small fixed-size type over an ok context enumerates without panic *)
+Lemma read_array_then_vec m t c n : ctxt_ok c -> 0 <= n -> 0 < ty_size t <= 8 ->
+  defined (bind (read_array m t c n) (fun '(arr, _) => arr_to_vec m arr)).
+Proof.
+  intros Hc Hn Ht. pose proof (ctxt_ok_cinv c Hc) as Hci. rewrite read_array_is_stride.
+  apply defined_bind; [apply read_array_stride_defined; [exact Hci|exact Hn|lia]|].
+  intros [arr c'] H. apply read_array_stride_inv in H; [|exact Hci|exact Hn|lia|lia].
+  destruct H as [_ [_ [_ [_ [_ [Hst [Hty [_ [_ [_ Hd]]]]]]]]]].
+  destruct (arr_to_vec_total m arr) as [v ->]; [| | |apply defined_ok].
+  - unfold dlen. rewrite Hd. pose proof (len_take_le (n * ty_size t) (drop (off c) (data (sc c)))).
+    destruct Hc as [[_ Hl] _]. unfold drop, dlen, len in *. rewrite skipn_length in H. lia.
+  - lia.
+  - rewrite Hty, Hst. lia.
+Qed.
+
+Lemma feature_table_read_defined m c : ctxt_ok c -> defined (feature_table_read m c).
+Proof.
+  intros Hc. unfold feature_table_read.
+  apply defined_bind; [apply read_prim_defined; apply ctxt_ok_cinv; exact Hc|]. intros [v1 c1] H1.
+  pose proof (read_prim_ok_ctxt _ _ _ _ Hc H1) as Hc1.
+  apply defined_bind; [apply read_prim_defined; apply ctxt_ok_cinv; exact Hc1|]. intros [n c2] H2.
+  destruct (read_prim_ok_props PU16 c1 n c2 eq_refl Hc1 H2) as [Hn Hc2].
+  pose proof (read_array_then_vec m [PU16] c2 n Hc2 Hn ltac:(cbv; split; [reflexivity|discriminate])) as D.
+  destruct (read_array m [PU16] c2 n) as [[arr c3]|e| |]; cbn [bind] in *;
+    [|apply defined_err|destruct D as [[? D]|[? D]]; discriminate|destruct D as [[? D]|[? D]]; discriminate].
+  apply defined_bind; [exact D|]. intros; apply defined_ok.
+Qed.
+
+Definition subst_ok (s : ft_subst) : Prop :=
+  match s with FSNone => True | FSTable sc _ => scope_ok sc end.
+
+Lemma fts_substitute_total m s fi : subst_ok s -> exists r, fts_substitute m s fi = Ok r.
+Proof.
+  destruct s as [|sc recs]; intros Hs; cbn [fts_substitute]; [eauto|].
+  destruct (substitution_record recs fi) as [r|]; [|eauto].
+  unfold scope_offset at 1, wadd. cbn [bind].
+  set (s' := {| base := (base sc + snd r) mod USIZE; data := slice_from (data sc) (snd r) |}).
+  assert (Hs' : scope_ok s').
+  { apply (scope_offset_ok m sc (snd r)); [exact Hs|reflexivity]. }
+  destruct (feature_table_read_defined m (ctxt_new s') (ctxt_ok_new s' Hs')) as [[ft ->]|[e ->]]; eauto.
+Qed.
+
+Lemma subst_features_total m s : subst_ok s -> forall fl i, exists fl', subst_features m s fl i = Ok fl'.
+Proof.
+  intros Hs. induction fl as [|[tag li] rest IH]; intros i; cbn [subst_features]; [eauto|].
+  destruct (fts_substitute_total m s i Hs) as [alt ->]. cbn [bind].
+  destruct (IH (i + 1)) as [rest' ->]. cbn [bind]. eauto.
+Qed.
+
+Lemma subst_layout_total m fv t :
+  match fv with Some s => subst_ok s | None => True end -> exists t', subst_layout m fv t = Ok t'.
+Proof.
+  intros Hs. unfold subst_layout. destruct fv as [s|]; [|eauto]. destruct (lt_features t) as [fl|]; [|eauto].
+  destruct (subst_features_total m s Hs fl 0) as [fl' ->]. cbn [bind]. eauto.
+Qed.
+
+(* the substitution a readable FeatureVariations table yields is over an ok scope *)
+Lemma ctxt_scope_ok m c s : ctxt_ok c -> ctxt_scope m c = Ok s -> scope_ok s.
+Proof. intros [Hs _] H. unfold ctxt_scope in H. eapply scope_offset_ok; eassumption. Qed.
+
+Lemma fts_table_read_ok m c s : ctxt_ok c -> fts_table_read m c = Ok s -> subst_ok s.
+Proof.
+  intros Hc H. unfold fts_table_read in H.
+  apply bind_ok in H. destruct H as [sc0 [Hsc H]].
+  apply bind_ok in H. destruct H as [[major c1] [_ H]].
+  destruct (negb (major =? FV_SUBST_MAJOR)); [discriminate|].
+  apply bind_ok in H. destruct H as [[mi c2] [_ H]].
+  apply bind_ok in H. destruct H as [[count c3] [_ H]].
+  apply bind_ok in H. destruct H as [[arr c4] [_ H]].
+  apply bind_ok in H. destruct H as [recs [_ H]]. injection H as <-.
+  cbn [subst_ok]. eapply ctxt_scope_ok; eassumption.
+Qed.
+
+Lemma record_substitution_ok m sc off s : scope_ok sc -> record_substitution m sc off = Ok s -> subst_ok s.
+Proof.
+  intros Hs H. unfold record_substitution in H. destruct (off =? 0); [injection H as <-; exact I|].
+  apply bind_ok in H. destruct H as [s' [Hs' H]].
+  eapply fts_table_read_ok; [|exact H]. apply ctxt_ok_new. eapply scope_offset_ok; eassumption.
+Qed.
+
+Lemma fv_matches_subst_ok m sc recs t s : scope_ok sc -> fv_matches m sc recs t = Ok (Some s) -> subst_ok s.
+Proof.
+  intros Hs H. apply fv_matches_some in H. destruct H as [i [r [_ [_ [S _]]]]].
+  eapply record_substitution_ok; eassumption.
+Qed.
+
+Definition fv_table_ok (fvt : option fv_table) : Prop :=
+  match fvt with Some f => scope_ok (fv_scope f) | None => True end.
+
+Lemma feature_variations_subst_ok m fvt tu fv : fv_table_ok fvt -> feature_variations m fvt tu = Ok fv ->
+  match fv with Some s => subst_ok s | None => True end.
+Proof.
+  intros Hf H. destruct fv as [s|]; [|exact I]. unfold feature_variations in H.
+  destruct tu as [t|]; [|discriminate]. destruct fvt as [f|]; [|discriminate].
+  eapply fv_matches_subst_ok; eassumption.
+Qed.
+
+Lemma feature_variations_read_ok m c f : ctxt_ok c -> feature_variations_read m c = Ok f -> scope_ok (fv_scope f).
+Proof.
+  intros Hc H. unfold feature_variations_read in H.
+  apply bind_ok in H. destruct H as [sc0 [Hsc H]].
+  apply bind_ok in H. destruct H as [[major c1] [_ H]].
+  destruct (negb (major =? FV_MAJOR)); [discriminate|].
+  apply bind_ok in H. destruct H as [[mi c2] [_ H]].
+  apply bind_ok in H. destruct H as [[count c3] [_ H]].
+  apply bind_ok in H. destruct H as [[arr c4] [_ H]].
+  apply bind_ok in H. destruct H as [recs [_ H]]. injection H as <-.
+  cbn [fv_scope]. eapply ctxt_scope_ok; eassumption.
+Qed.
+
+Lemma layout_read_fv_ok m d fvt : table_ok d -> layout_read_fv m d = Ok fvt -> fv_table_ok fvt.
+Proof.
+  intros Hd H. unfold layout_read_fv in H.
+  apply bind_ok in H. destruct H as [[major c1] [_ H]].
+  apply bind_ok in H. destruct H as [[minor c2] [_ H]].
+  apply bind_ok in H. destruct H as [[x3 c3] [_ H]].
+  apply bind_ok in H. destruct H as [[x4 c4] [_ H]].
+  apply bind_ok in H. destruct H as [[x5 c5] [_ H]].
+  destruct (negb (major =? LAYOUT_MAJOR)); [discriminate|].
+  destruct (0 <? minor); [|injection H as <-; exact I].
+  apply bind_ok in H. destruct H as [[off c6] [_ H]].
+  destruct (0 <? off); [|injection H as <-; exact I].
+  apply bind_ok in H. destruct H as [s [Hs H]].
+  apply bind_ok in H. destruct H as [f [Hf H]]. injection H as <-.
+  cbn [fv_table_ok]. eapply feature_variations_read_ok; [|exact Hf].
+  apply ctxt_ok_new. eapply scope_offset_ok; [|exact Hs]. apply scope_ok_new; exact Hd.
+Qed.
+
+(* for every byte string that is a table: whenever the variations are readable, the substituted feature list
+   exists — the end-to-end equalities have no side condition *)
+Theorem substituted_layout_exists m d fvt tu fv t :
+  table_ok d -> layout_read_fv m d = Ok fvt -> feature_variations m fvt tu = Ok fv ->
+  exists t', subst_layout m fv t = Ok t'.
+Proof.
+  intros Hd Hr Hf. apply subst_layout_total.
+  eapply feature_variations_subst_ok; [|exact Hf]. eapply layout_read_fv_ok; eassumption.
+Qed.
+
+(* ================================================================== corollaries used in Props *)
+(* a matching record with a NULL substitution ends the search: whatever follows is not considered *)
+Theorem fv_matches_null_first m sc cs rest t :
+  record_condition m sc (cs, 0) t = Ok true -> fv_matches m sc ((cs, 0) :: rest) t = Ok (Some FSNone).
+Proof.
+  intros H. cbn [fv_matches]. unfold record_matches. rewrite H. reflexivity.
+Qed.
+
+(* a record with an unsupported substitution table is rejected and the next record is considered *)
+Theorem fv_matches_rejected_first m sc r rest t :
+  record_condition m sc r t = Ok true -> record_substitution m sc (snd r) = Err BadVersion ->
+  fv_matches m sc (r :: rest) t = fv_matches m sc rest t.
+Proof.
+  intros H S. cbn [fv_matches]. unfold record_matches. rewrite H. cbn [bind]. rewrite S. reflexivity.
+Qed.
+
+Theorem fv_matches_nomatch_first m sc r rest t :
+  record_condition m sc r t = Ok false -> fv_matches m sc (r :: rest) t = fv_matches m sc rest t.
+Proof. intros H. cbn [fv_matches]. unfold record_matches. rewrite H. reflexivity. Qed.
+
+(* an unreadable table of a record that has to be examined fails the whole match — later records are not tried *)
+Theorem fv_matches_unreadable_first m sc r rest t e :
+  record_condition m sc r t = Err e -> fv_matches m sc (r :: rest) t = Err e.
+Proof.
+  intros H. pose proof (record_condition_only_eof m sc r t e H) as ->.
+  cbn [fv_matches]. unfold record_matches. rewrite H. reflexivity.
+Qed.
+
+(* the ordering theorems of the unvaried run carry over: the list handed to the application loop under a
+   tuple is strictly increasing in the lookup index and holds exactly the lookups of the SUBSTITUTED features *)
+From AV Require Import Model.LayoutSpec Proofs.GsubProofs.
+
+Theorem fv_lookups_applied_in_list_order m t t' ls fv feats rvrn lks :
+  subst_layout m fv t = Ok t' ->
+  build_lookups_custom_v m t ls fv feats None [] = Ok (rvrn, lks) ->
+  strictly_sorted (map fst lks) /\
+  (forall k, In k (map fst lks) <-> contributes t' ls feats k) /\
+  (forall tg, In tg (map snd lks) -> In tg (map fst feats)).
+Proof.
+  intros Hs H. rewrite (build_lookups_custom_v_subst m t t' ls fv Hs) in H.
+  exact (lookups_applied_in_list_order _ _ _ _ _ H).
+Qed.
+
+Theorem fv_mask_lookups_applied_in_list_order m t t' script lang fv mask lks :
+  subst_layout m fv t = Ok t' ->
+  lookups_for_mask_v m t script lang fv mask = Ok lks ->
+  strictly_sorted (map fst lks) /\
+  (forall s ls, find_script_or_default t' script = Some s -> find_langsys_or_default s lang = Some ls ->
+     forall k, In k (map fst lks) <-> contributes_mask t' ls mask FEATURE_MASKS k).
+Proof.
+  intros Hs H. rewrite (lookups_for_mask_v_subst m t t' script lang fv mask Hs) in H.
+  exact (mask_lookups_applied_in_list_order _ _ _ _ _ H).
+Qed.
